@@ -363,7 +363,9 @@ Plan gen_w1(uint64_t seed, const std::string& tier, const std::string& focus) {
     if (r.coin(0.2)) pl.p["angle_reg"] = 1e-18;
     pl.p["clock"] = (focus == "C15") ? 0 : (int)r.below(3);
     draw_schedule(pl, r, thorough ? 16 : 8);
-    int total = r.range(8, thorough ? 90 : 45);
+    if (focus == "tsan") { pl.p["free_running"] = 1; pl.p["team"] = r.range(2, 8); pl.p["diff"] = 0; }
+    if (focus == "valgrind") { pl.p["team"] = 1; pl.p["strategy"] = 0; }
+    int total = (focus == "valgrind") ? r.range(4, 12) : r.range(8, thorough ? 90 : 45);
     int done = 0;
     while (done < total) {
         int k = std::min(total - done, r.range(3, 20)); pl.ops.push_back({"iter", {(double)k}}); done += k;
